@@ -266,6 +266,26 @@ def rejection_cases(ck, I):
         w.wcs.set()
         return w
 
+    def cube_no_shape():
+        w = fw.WCS(naxis=3)
+        w.wcs.ctype = ['RA---TAN', 'DEC--TAN', 'FREQ']
+        w.wcs.crval = [10.0, 20.0, 1.4e9]
+        w.wcs.cdelt = [1e-4, 1e-4, 1e6]
+        w.wcs.crpix = [50.0, 50.0, 1.0]
+        w.wcs.set()
+        return w
+
+    def degenerate_axes():
+        w = fw.WCS(naxis=4)
+        w.wcs.ctype = ['RA---SIN', 'DEC--SIN', 'FREQ', 'STOKES']
+        w.wcs.crval = [10.0, 20.0, 1.4e9, 1.0]
+        w.wcs.cdelt = [-1e-4, 1e-4, 1e6, 1.0]
+        w.wcs.crpix = [50.0, 50.0, 1.0, 1.0]
+        w.wcs.set()
+        return w
+
+    bad += [('celestial + spectral axis, pixel_shape unset (naxis=3)', cube_no_shape),
+            ('celestial + degenerate FREQ/STOKES axes, pixel_shape unset (naxis=4)', degenerate_axes)]
     bad += [('celestial + spectral axis (naxis=3)', spectral_cube), ('linear axes, no celestial pair', linear),
             ('two spectral axes', spectral_pair), ('celestial + time axis (naxis=3)', celestial_plus_time)]
     for name, mk in bad:
